@@ -130,7 +130,8 @@ func vSignOutHistory(t *testing.T, out *vEmitter, name string, redis bool, domai
 		res := b.get("/page")
 		note(res)
 		if !res.Hit() {
-			t.Fatalf("history %s: request %d not served (status %d)", name, i, res.Status)
+			// a control: the history is meant to consist of served requests
+			out.Violation("control/history-request-not-served", "an authenticated request of the sign-out history was not served", map[string]interface{}{"history": name, "request": i, "status": res.Status})
 		}
 	}
 	// ---- sign-out ----
